@@ -2,6 +2,7 @@
 // No string_theory header is included here.
 #pragma once
 #include <cerrno>
+#include <clocale>
 #include <cstddef>
 #include <cstdint>
 #include <cstdio>
@@ -80,6 +81,10 @@ inline unsigned next_misalign() { return (g_exact_seq++ & 1) ? g_misalign2 : g_m
 // errno as an earlier, unrelated call of the program may have left it (0 in half of the cases, else ERANGE / EINVAL / EDOM):
 // pre_errno() is called by the harnesses right before calls into the library that parse numbers or format
 inline int g_errno_pre = 0;
+// more ambient state an earlier part of the program may have left behind (both are what the C library calls used as oracles see, too):
+// the process locale ("C" or "C.utf8") and the floating-point rounding direction (used by the C13 harness only)
+inline int g_round_pre = 0;      // index into {FE_TONEAREST, FE_UPWARD, FE_DOWNWARD, FE_TOWARDZERO}
+inline bool g_file_error_pre = false;   // C17: the FILE* handed to ST::printf already has its error indicator set
 inline void pre_errno() { errno = g_errno_pre; }
 inline void case_environment(const uint8_t *d, size_t n) {
     uint64_t h = 1469598103934665603ull;
@@ -90,6 +95,9 @@ inline void case_environment(const uint8_t *d, size_t n) {
     g_exact_seq = 0;
     static const int kErr[8] = {0, ERANGE, 0, EINVAL, 0, ERANGE, 0, EDOM};
     g_errno_pre = kErr[(h >> 4) & 7];
+    setlocale(LC_ALL, ((h >> 20) & 3) == 3 ? "C.utf8" : "C");
+    g_round_pre = ((h >> 24) & 3) == 0 ? (int)((h >> 26) & 3) : 0;
+    g_file_error_pre = ((h >> 30) & 7) == 5;
 }
 template <class T> struct Exact {
     T *p; size_t n; void *base;
